@@ -313,6 +313,54 @@ func runOp(op concOp, m, priv proto.Message) (r string) {
 	return op.f(m, priv)
 }
 
+// coldStart: the FIRST use of a type's generated methods in this process happens concurrently: all goroutines are released
+// together on one fresh shared message before anything has sized, marshalled or ranged a message of that type (lazily
+// initialised package state on the read path — method tables, caches — is then written and read without ordering, which
+// the race detector reports). Results are compared with a sequential run made afterwards.
+func (c *concCtx) coldStart(mi *msgInfo, v *V) {
+	o := c.o
+	id := c.lib.id(mi)
+	sharedMsg := c.lib.G(mi, v) // built through package reflect only
+	ops := c.ops(mi, v)
+	privs := make([]proto.Message, concGoroutines)
+	for g := range privs {
+		privs[g] = c.lib.G(mi, v)
+	}
+	got := make([][]string, concGoroutines)
+	start := make(chan struct{})
+	var wg sync.WaitGroup
+	for g := 0; g < concGoroutines; g++ {
+		wg.Add(1)
+		go func(g int) {
+			defer wg.Done()
+			<-start
+			for k := range ops {
+				j := (k + g*2) % len(ops)
+				got[g] = append(got[g], ops[j].name+"\x00"+runOp(ops[j], sharedMsg, privs[g]))
+			}
+		}(g)
+	}
+	close(start)
+	wg.Wait()
+	priv0 := c.lib.G(mi, v)
+	seq := map[string]string{}
+	for _, op := range ops {
+		seq[op.name] = runOp(op, sharedMsg, priv0)
+	}
+	for g := range got {
+		for _, r := range got[g] {
+			nm, val, _ := strings.Cut(r, "\x00")
+			if val != seq[nm] {
+				o.withKey("conc/"+id+"/coldstart").prop("C11", false, fmt.Sprintf("cold start: goroutine %d's first %s on a shared %s gave %.200q, a sequential reader gets %.200q", g, nm, id, val, seq[nm]))
+			} else {
+				o.propOK++
+			}
+		}
+	}
+	o.count("cold_starts")
+	o.hist["concurrent_ops"] += concGoroutines * len(ops)
+}
+
 // one shared message: sequential run, then the concurrent run
 func (c *concCtx) shared(mi *msgInfo, v *V, iters int, deadline time.Time) {
 	o, si := c.o, c.si
@@ -421,6 +469,10 @@ func engineConc(cfg config, o *out) {
 			lib.fixWKT(j.mi, v, 2)
 		}
 		return v
+	}
+	// cold start first: nothing has used these types' generated methods yet in this process
+	for _, j := range jobs {
+		j.c.coldStart(j.mi, gen(j, 1))
 	}
 	if !cfg.thorough() {
 		// quick: 2 shared messages per type, ~1k operations per goroutine on each
